@@ -15,7 +15,9 @@ import (
 	"verifharness/ref/ed"
 )
 
-func init() { core.Register(core.Check{ID: "C01", Level: "exploration", Run: runC01}) }
+func init() {
+	core.Register(core.Check{ID: "C01", Level: "exploration", Run: func(c *core.Ctx) { runC01(c); reentrancyPass(c, "C01") }})
+}
 
 type c01triple struct {
 	pub, msg, sig []byte
